@@ -85,6 +85,7 @@ type run struct {
 
 	emits     []string
 	pendingGo []pendingGo
+	curG, nextG int // goroutine executing now (0: the entry's), last id handed out
 	twins     map[*Term]*Term
 	stack     []*ssa.Function
 	names     map[*value]string
@@ -99,6 +100,11 @@ type run struct {
 	frozen    map[*value]string   // cells no operation may write to -> obligation label
 	frozenMap map[*smap]string
 	frozenSeen map[string]bool
+	poolStrict bool             // vPoolStrict: an object is not the putter's any more after sync.Pool.Put
+	pooled     map[*value]bool  // cells of objects currently inside a pool
+	pooledMap  map[*smap]bool
+	raceLabel  string           // obligation label of the pairwise schedule composition (default: C11's)
+	waitFrom  *frame // caller of the sync primitive being recorded
 	syncIDs   map[*value]int
 	syncLog   []syncEv
 	held      map[*value]int
@@ -513,6 +519,10 @@ func (e *engine) explore(entry *ssa.Function, args []value, qlog func(int) *stri
 			}
 			if (e.maxPaths > 0 && res.Paths+len(work) > e.maxPaths) || (e.maxSeconds > 0 && time.Since(t0).Seconds() > float64(e.maxSeconds)) {
 				res.Truncated = true
+				// the budget is spent: what is still queued is dropped too
+				// (reported as truncated), not drained at seconds per path
+				pending -= len(work)
+				work = nil
 			} else {
 				for _, a := range r.alts {
 					work = append(work, a)
@@ -579,7 +589,11 @@ func (e *engine) explore(entry *ssa.Function, args []value, qlog func(int) *stri
 				}
 			}
 			if r.unknownSeen {
-				inconcl["solver answered unknown on a feasibility query (branch kept)"]++
+				// sound: the branch was kept, and a violation needs a model of
+				// the whole path condition; recorded, not a reason to distrust the run
+				e.mu.Lock()
+				e.allNotes["solver answered unknown on a feasibility query: the branch was kept (obligations on it are still decided with the full path condition)"] = true
+				e.mu.Unlock()
 			}
 			for _, ev := range r.events {
 				inconcl[ev]++
@@ -656,6 +670,8 @@ func (e *engine) runPath(sol *Solver, entry *ssa.Function, args []value, prefix 
 		pools:      map[*value][]value{},
 		frozen:     map[*value]string{},
 		frozenMap:  map[*smap]string{},
+		pooled:     map[*value]bool{},
+		pooledMap:  map[*smap]bool{},
 		names:      map[*value]string{},
 		twins:      map[*Term]*Term{},
 		watch:      map[*value]string{},
